@@ -1106,6 +1106,28 @@ def delegation_remove_all(a: A, ctx):
                 c = e.node
                 arg0 = c.args[0] if c.args else None
                 fo = enclosing_for_binding(f, e.cn, arg0.id) if isinstance(arg0, ast.Name) else None
+                if fo is None and isinstance(arg0, ast.Name):
+                    # the removal sits inside a comprehension over the matches
+                    stmt = e.cn.ast
+                    for comp in [n for n in ast.walk(stmt) if isinstance(n, (ast.ListComp, ast.GeneratorExp, ast.SetComp))] if stmt is not None else []:
+                        g = comp.generators[0]
+                        if len(comp.generators) == 1 and isinstance(g.target, ast.Name) and g.target.id == arg0.id and \
+                                any(x is c for x in ast.walk(comp)):
+                            fo = ast.For(target=g.target, iter=g.iter, body=[], orelse=[])
+                            in_elt_or_first_if = any(x is c for x in ast.walk(comp.elt)) or (g.ifs and any(x is c for x in ast.walk(g.ifs[0])))
+                            if e.name == '__remove' and not (len(c.args) == 2 and a.is_self_attr(f, a.xp(f, c.args[1], e.cn), ROOT)):
+                                fo = None
+                            elif not in_elt_or_first_if:
+                                o.refute(f, c, comp, f"{what}: some matches are not removed (the removal sits behind another filter)")
+                                good = False
+                                fo = 'done'
+                            else:
+                                it, itn, _ = resolve(f, g.iter, e.cn)
+                                query = (it, itn, fo)
+                                fo = 'done'
+                            break
+                    if fo == 'done':
+                        continue
                 if fo is None:
                     o.refute(f, c, c, f"{what}: `{src(c)}` does not remove the matched tasks one by one")
                     good = False
@@ -1129,14 +1151,14 @@ def delegation_remove_all(a: A, ctx):
                                                 (isinstance(it.func, ast.Attribute) and it.func.attr == 'tasks' and a.is_self(f, it.func.value)))
             if not okq:
                 t = norm_list(it)
-                o.undecided(f, fo, fo.iter, f"{what}: the removed tasks are not the result of the list query `{'self' if single else 'self.tasks'}(key, **kwargs)`")
+                o.undecided(f, rem[0].node, fo.iter, f"{what}: the removed tasks are not the result of the list query `{'self' if single else 'self.tasks'}(key, **kwargs)`")
                 a.leftovers(o, f, what)
                 continue
             has_key = (len(it.args) >= 1 and isinstance(it.args[0], ast.Name) and it.args[0].id == key_p) or \
                 any(k.arg == 'key' and isinstance(k.value, ast.Name) and k.value.id == key_p for k in it.keywords)
             has_kw = any(k.arg is None and isinstance(k.value, ast.Name) and k.value.id == kw for k in it.keywords)
             if not has_key or not has_kw:
-                o.refute(f, fo, it, f"{what}: the query `{src(it)}` drops the caller's " + ('key' if not has_key else 'keyword filters') +
+                o.refute(f, rem[0].node, it, f"{what}: the query `{src(it)}` drops the caller's " + ('key' if not has_key else 'keyword filters') +
                          ": more tasks than the matching ones are removed")
                 a.leftovers(o, f, what)
                 continue
@@ -1156,7 +1178,7 @@ def delegation_remove_all(a: A, ctx):
                 bad = True
             noops = [cfg.node_of(r) for r in returns_of(f) if r.value is not None and match("_ImmutableTaskList([])", r.value)]
             if not bad and a.must_pass(o, f, rem, noops, what) and a.leftovers(o, f, what) == 0:
-                o.site(f, fo, f"for {src(fo.target)} in {src(it)}: {src(rem[0].node)}")
+                o.site(f, rem[0].node, f"for {src(fo.target)} in {src(it)}: {src(rem[0].node)}")
             else:
                 a.leftovers(o, f, what)
     ctx.guarded(o, run)
@@ -1776,6 +1798,34 @@ def append_last(a: A, ctx):
     ctx.guarded(o, run)
 
 
+def _subtree_member(a: A, f, recv, cn):
+    """is the receiver self or an element of a list made of self / self.children / self.all_children: 'yes' | 'no' | '?'"""
+    if a.is_self(f, recv):
+        return 'yes'
+    if not isinstance(recv, ast.Name):
+        return 'no' if isinstance(recv, ast.Attribute) else '?'
+    fo = enclosing_for_binding(f, cn, recv.id)
+    if fo is None:
+        return 'no' if recv.id in f.params else '?'
+    it, at, _ = resolve(f, fo.iter, cfg_of(f).node_of(fo))
+
+    def part_ok(p):
+        if p[0] == 'lit':
+            return all(a.is_self(f, x) for x in p[1])
+        if p[0] in ('ref', 'filter') and not (p[0] == 'filter' and p[3]):
+            s0 = list_source(p)
+            s0 = resolve(f, s0, at)[0] if s0 is not None else None
+            return s0 is not None and isinstance(s0, ast.Attribute) and a.is_self(f, s0.value) and \
+                s0.attr in ('children', '_Task__children', 'all_children')
+        if p[0] == 'concat':
+            return all(part_ok(x) for x in p[1])
+        return False
+    t = norm_list(it)
+    if part_ok(t):
+        return 'yes'
+    return '?'
+
+
 @part
 def subtree_follows(a: A, ctx):
     o = ctx.ob('subtree_follows', 'R9',
@@ -1813,32 +1863,42 @@ def subtree_follows(a: A, ctx):
         if ok:
             o.site(f, f.node, 'elements: only parent is assigned')
         for q in ('task.Task._attach', 'task.Task._detach'):
+            if q.endswith('_detach') and not a.prog.has_func(q):
+                o.site(None, None, 'no Task._detach in this tree: nothing walks a released subtree (C11 decides whether that is right)')
+                continue
             f = a.fn(q)
             ok = True
             for e in a.events(f):
-                if e.kind == 'write' and not (e.w.field == '_Task__wbs' and a.is_self(f, e.w.recv)):
-                    o.refute(f, e.node, e.node, f"{f.name} writes `{src(e.node)[:60]}`; it may only set the task's own __wbs")
-                    ok = False
+                recv = e.w.recv if e.kind == 'write' else (
+                    e.node.func.value if e.kind == 'call' and isinstance(e.node, ast.Call) and isinstance(e.node.func, ast.Attribute)
+                    else None)
+                where = _subtree_member(a, f, recv, e.cn) if recv is not None else 'no'
+                if e.kind == 'write':
+                    if e.w.field != '_Task__wbs':
+                        o.refute(f, e.node, e.node, f"{f.name} writes `{src(e.node)[:60]}`; WBS bookkeeping may only set __wbs")
+                        ok = False
+                    elif where == 'no':
+                        o.refute(f, e.node, e.node, f"{f.name} writes __wbs of `{src(recv)}`, a task outside the subtree of the moved task")
+                        ok = False
+                    elif where == '?':
+                        o.undecided(f, e.node, e.node, f"{f.name}: cannot tell whether `{src(recv)}` belongs to the moved subtree")
+                        ok = False
                 elif e.kind == 'setter':
                     o.refute(f, e.stmt or e.node, e.node, f"{f.name} assigns a relation (`{src(e.node)}`)")
                     ok = False
                 elif e.kind == 'call':
                     c = e.node
-                    recv = c.func.value if isinstance(c, ast.Call) and isinstance(c.func, ast.Attribute) else None
-                    k = None
-                    if isinstance(recv, ast.Name):
-                        fo = enclosing_for_binding(f, e.cn, recv.id)
-                        if fo is not None:
-                            it = a.xp(f, fo.iter, cfg_of(f).node_of(fo))
-                            s0 = list_source(norm_list(it)) if norm_list(it)[0] in ('ref', 'filter') else None
-                            if s0 is not None and isinstance(s0, ast.Attribute) and a.is_self(f, s0.value) and \
-                                    s0.attr in ('children', '_Task__children'):
-                                k = 'child'
-                    if not (e.name == f.name and k == 'child'):
-                        o.refute(f, c, c, f"{f.name} calls `{src(c)[:60]}`; it may only recurse into the task's own children")
+                    if e.name not in ('_attach', '_detach') or e.name != f.name:
+                        o.refute(f, c, c, f"{f.name} calls `{src(c)[:60]}`; it may only walk down the task's own subtree")
+                        ok = False
+                    elif where == 'no':
+                        o.refute(f, c, c, f"{f.name} recurses into `{src(recv)}`, a task outside the subtree of the moved task")
+                        ok = False
+                    elif where == '?':
+                        o.undecided(f, c, c, f"{f.name}: cannot tell whether `{src(recv)}` belongs to the moved subtree")
                         ok = False
             if ok:
-                o.site(f, f.node, 'writes only self.__wbs, recurses into self.children')
+                o.site(f, f.node, 'writes only __wbs, only inside the subtree of self')
     ctx.guarded(o, run)
 
 
@@ -2499,6 +2559,16 @@ def insert_index(a: A, ctx):
         if not cfg.can_reach(at_ev.cn, m_ev.cn) or cfg.can_reach(m_ev.cn, at_ev.cn):
             o.refute(f, c, c, f"{what}: the task is moved before it is attached to this list")
             return
+        # ---- anchor
+        an, an_n, hops = resolve(f, anchor_arg, m_ev.cn)
+        if an_n is None:
+            o.undecided(f, c, anchor_arg, f"{what}: anchor has no single definition")
+            return
+        if cfg.can_reach(at_ev.cn, an_n) and an_n is not at_ev.cn:
+            o.refute(f, c, anchor_arg, f"{what}: the anchor is looked up AFTER the task has been attached (it is then the last element "
+                                       f"of the list): index len(list) finds the task itself and earlier indexes are shifted for a task "
+                                       f"that was already in the list")
+            return
         # conditions of the move: only `anchor is not None`
         for atm, pol, _ in _raw_atoms(f, m_ev.cn):
             okc = isinstance(anchor_arg, ast.Name) and (
@@ -2510,16 +2580,6 @@ def insert_index(a: A, ctx):
                     continue
                 o.undecided(f, c, atm, f"{what}: the move depends on a condition the rule does not know")
                 return
-        # ---- anchor
-        an, an_n, hops = resolve(f, anchor_arg, m_ev.cn)
-        if an_n is None:
-            o.undecided(f, c, anchor_arg, f"{what}: anchor has no single definition")
-            return
-        if cfg.can_reach(at_ev.cn, an_n) and an_n is not at_ev.cn:
-            o.refute(f, c, anchor_arg, f"{what}: the anchor is looked up AFTER the task has been attached (it is then the last element "
-                                       f"of the list): index len(list) finds the task itself and earlier indexes are shifted for a task "
-                                       f"that was already in the list")
-            return
         if not isinstance(an, ast.IfExp):
             if isinstance(an, ast.Subscript):
                 o.refute(f, c, an, f"{what}: anchor `{src(an)}` has no `index >= len(list)` case: insert at / past the end must append")
@@ -2671,6 +2731,9 @@ def frame(a: A, ctx):
     def run(o):
         mset = {q for q in ALLM}
         for q in ALLM:
+            if q.endswith('Task._detach') and not a.prog.has_func(q):
+                o.site(None, None, 'no Task._detach in this tree')
+                continue
             f = a.fn(q)
             ok = True
             n = 0
@@ -2685,6 +2748,14 @@ def frame(a: A, ctx):
                         continue
                     allowed = TABLE.get(q, {})
                     rc = recv_class(f, e)
+                    if f.name in ('_attach', '_detach') and rc != 'self':
+                        sm = _subtree_member(a, f, e.w.recv, e.cn)
+                        if sm == 'yes':
+                            rc = 'self'        # a member of the moved subtree
+                        elif sm == '?':
+                            o.undecided(f, e.node, e.node, f"{f.name}: cannot tell whether `{src(e.w.recv)}` belongs to the moved subtree")
+                            ok = False
+                            continue
                     if e.w.field not in allowed:
                         o.refute(f, e.node, e.node, f"{f.name} writes {unmangle(e.w.field)} (`{src(e.node)[:60]}`), which is not a relation "
                                                     f"this mutator is documented to change")
